@@ -294,7 +294,7 @@ pub fn run(tier: Tier) -> i32 {
     }
     let cells_hit = std::sync::Mutex::new(std::collections::BTreeSet::new());
     let load_fail = AtomicU64::new(0);
-    par_for(fam.len(), 1, |vi| {
+    rep.par_for(fam.len(), 1, "C01 part 1", |vi| {
         let cfg = &fam[vi];
         let vc = match voice_case(cfg) {
             Ok(v) => v,
@@ -357,7 +357,7 @@ pub fn run(tier: Tier) -> i32 {
     vutts.push(Utt::Typed(s1.iter().take(6).cloned().collect()));
     vutts.push(Utt::Strs(timed(&corpus[40..43], &[0.0, 0.05, 0.12, 0.2])));
     let n_v0_default = vutts.len();
-    par_for(vutts.len(), 1, |ui| {
+    rep.par_for(vutts.len(), 1, "C01 part 2", |ui| {
         rep.distinct(fnv(format!("V0|{}", ui).as_bytes()));
         check_one(&rep, &v0, &[], &vutts[ui], &st);
         if ui % 4 == 0 {
@@ -375,7 +375,7 @@ pub fn run(tier: Tier) -> i32 {
     ];
     let conds = conditions_upto(3, tier.pick(1, 2));
     let jobs: Vec<(usize, usize)> = (0..conds.len()).flat_map(|c| (0..short.len()).map(move |u| (c, u))).collect();
-    par_for(jobs.len(), 1, |j| {
+    rep.par_for(jobs.len(), 1, "C01 part 3", |j| {
         let (ci, ui) = jobs[j];
         // long-waveform corners (speed 0.25 x fperiod 480) only on the 1-label utterance
         let heavy = conds[ci].iter().any(|a| matches!(a, Act::Speed(s) if *s < 1.0)) || conds[ci].iter().any(|a| matches!(a, Act::Fperiod(480)));
